@@ -30,6 +30,11 @@ def run(chk, tier):
     import dup as _dup
     nci = _dup.cacheinv(chk, P)
     chk.floor("R-CACHEINV", "cache invalidation facts on dup", nci, 2)
+    chk.rule("R-COMPACT", "in-place compaction moves elements down: a single-element memcpy(&A[x], &A[y]) between two elements of one array has x <= y on every path (zone abstract interpretation); "
+             "the converse order overwrites the surviving entry with the one just dropped")
+    import zone as _zone
+    nco = _zone.run_compact(chk, P, units=('memattrs.c',))
+    chk.floor("R-COMPACT", "element moves inside one array", nco, 2)
     chk.rule("R-EXTENT", "bulk operations on targets/initiators arrays agree on their extent")
     extent.run(chk, P, list(P.units), fields=set(FIELDS))
     chk.rule("R-GUARD", "Capacity/Locality are read-only (CONVENIENCE test dominates every store of set_value); readers refresh an invalid cache before using target objects")
@@ -60,7 +65,8 @@ def run(chk, tier):
                     yield x, "lookup"
         guards.dominated(chk, P, fn, "memattrs.c", uses, lambda st: V in st, "R-GUARD",
                          "stored targets are used only after the cache was found valid or hwloc__imattr_refresh ran", min_inst=1, canon=canon)
-    chk.decided += ["after hwloc_topology_dup() the copy's cached targets/initiators are invalidated (values survive dup and are re-resolved against the copy)",
+    chk.decided += ["compaction of targets/initiators after a refresh copies the surviving entry down, never the dropped one over it",
+                    "after hwloc_topology_dup() the copy's cached targets/initiators are invalidated (values survive dup and are re-resolved against the copy)",
                     "register: unique name loop and exactly one ordering flag (all words)", "*nr overflow convention: stores bounded by the caller's capacity, count reported",
                     "best-of queries keep the maximal/minimal value with first-wins ties (exhaustive fold over orderings)", "Capacity/Locality read-only",
                     "readers refresh before touching cached target objects"]
